@@ -207,6 +207,10 @@ type Layout struct {
 	BlankLines  bool   `json:"blank_lines"`  // empty lines between members
 	PipeStyle   int    `json:"pipe_style"`   // 0 `@a | @b`  1 `@a|@b`  2 `@a| @b`  3 `@a |@b`
 	DashStyle   int    `json:"dash_style"`   // {rules} and note: 0 `{..} - note`  1 `{..}-note`  2 (/* */ only) `{..} -` NL `note`  3 (/* */ only) `{..}` NL `- note`
+	QuoteMix    int    `json:"quote_mix"`    // 0 all rule names as QuoteNames says; 1 / 2 alternately quoted and bare, starting quoted / bare
+	OpenGap     int    `json:"open_gap"`     // between the annotation opener and its body: 0 blank, 1 nothing, 2 TAB, 3 two blanks, 4 blank+TAB
+	SpreadHead  bool   `json:"spread_head"`  // with Spread: the first rule stays on the line of the opening brace, a line break follows every comma
+	GapTab      bool   `json:"gap_tab"`      // a TAB instead of blanks between the element and its annotation
 }
 
 // DefaultLayout is the plain style used by the repository's own examples.
@@ -231,6 +235,10 @@ func RandLayout(rng *rand.Rand) Layout {
 		BlankLines:  rng.IntN(5) == 0,
 		PipeStyle:   []int{0, 0, 1, 2, 3}[rng.IntN(5)],
 		DashStyle:   []int{0, 0, 0, 1, 2, 3}[rng.IntN(6)],
+		QuoteMix:    []int{0, 0, 0, 1, 2}[rng.IntN(5)],
+		OpenGap:     []int{0, 0, 0, 1, 2, 3, 4}[rng.IntN(7)],
+		SpreadHead:  rng.IntN(3) == 0,
+		GapTab:      rng.IntN(6) == 0,
 	}
 	return l
 }
@@ -239,6 +247,7 @@ type printer struct {
 	l       Layout
 	sb      strings.Builder
 	comment int // running counter for deterministic comment texts
+	ruleSeq int // running counter of printed rule names (QuoteMix)
 }
 
 // Print renders a node as schema text.
@@ -307,7 +316,12 @@ func (p *printer) blockComment(level int) {
 func (p *printer) hasAnn(n *Node) bool { return n.HasRules || len(n.Rules) > 0 || n.Note != "" }
 
 func (p *printer) ruleName(name string) string {
-	if p.l.QuoteNames {
+	q := p.l.QuoteNames
+	if p.l.QuoteMix != 0 {
+		p.ruleSeq++
+		q = (p.ruleSeq+p.l.QuoteMix)%2 == 0
+	}
+	if q {
 		return `"` + name + `"`
 	}
 	return name
@@ -350,18 +364,22 @@ func (p *printer) ruleObject(rules []Rule, level int, spread bool) string {
 	sb.WriteString("{")
 	if spread && len(rules) > 0 {
 		for i, r := range rules {
-			sb.WriteString(p.l.NL)
-			for k := 0; k <= level+1; k++ {
-				sb.WriteString(p.l.Indent)
+			if i > 0 || !p.l.SpreadHead {
+				sb.WriteString(p.l.NL)
+				for k := 0; k <= level+1; k++ {
+					sb.WriteString(p.l.Indent)
+				}
 			}
 			sb.WriteString(p.ruleName(r.Name) + in + ":" + sp + p.rv(r.Val, level+1, false))
 			if i+1 < len(rules) {
 				sb.WriteString(",")
 			}
 		}
-		sb.WriteString(p.l.NL)
-		for k := 0; k <= level; k++ {
-			sb.WriteString(p.l.Indent)
+		if !p.l.SpreadHead {
+			sb.WriteString(p.l.NL)
+			for k := 0; k <= level; k++ {
+				sb.WriteString(p.l.Indent)
+			}
 		}
 		sb.WriteString("}")
 		return sb.String()
@@ -382,7 +400,11 @@ func (p *printer) annotation(n *Node, level int) {
 	if !p.hasAnn(n) {
 		return
 	}
-	p.sb.WriteString(strings.Repeat(" ", p.l.AnnGap))
+	if p.l.GapTab {
+		p.sb.WriteString("\t")
+	} else {
+		p.sb.WriteString(strings.Repeat(" ", p.l.AnnGap))
+	}
 	body := ""
 	if n.HasRules || len(n.Rules) > 0 {
 		body = p.ruleObject(n.Rules, level, p.l.Multi && p.l.Spread)
@@ -401,10 +423,11 @@ func (p *printer) annotation(n *Node, level int) {
 	} else {
 		body = n.Note
 	}
+	gap := []string{" ", "", "\t", "  ", " \t"}[p.l.OpenGap%5]
 	if p.l.Multi {
-		p.sb.WriteString("/* " + body + " */")
+		p.sb.WriteString("/*" + gap + body + " */")
 	} else {
-		p.sb.WriteString("// " + body)
+		p.sb.WriteString("//" + gap + body)
 	}
 }
 
